@@ -1861,10 +1861,13 @@ impl<'a, E: quiver_core::effects::Effect> Compiler<'a, E> {
             self.local_count += 1;
 
             // Register in scope
-            // For simple identifier bindings (single binding), preserve the value's provenance
-            // so tuple field provenance is preserved. For complex patterns (destructuring),
-            // use Unknown since path resolution is complex.
-            let var_provenance = if bindings.len() == 1 {
+            // For simple identifier bindings (the pattern binds the whole value), preserve the
+            // value's provenance so tuple field provenance is preserved. For complex patterns
+            // (destructuring, even with a single binder: `[_, x]`), use Unknown since path
+            // resolution is complex.
+            let binds_whole_value =
+                matches!(pattern, ast::Match::Identifier(..) | ast::Match::As(..));
+            let var_provenance = if binds_whole_value {
                 value_provenance.for_binding()
             } else {
                 Provenance::Unknown
